@@ -83,6 +83,7 @@ HCIcrle_init(accrec_t *access_rec)
     rle_info->last_byte   = (unsigned)RLE_NIL; /* start with no code in the last byte */
     rle_info->second_byte = (unsigned)RLE_NIL; /* start with no code here too */
     rle_info->offset      = 0;                 /* offset into the file */
+    rle_info->encoding    = FALSE;             /* nothing taken by the encoder yet */
 
     return SUCCEED;
 } /* end HCIcrle_init() */
@@ -182,8 +183,9 @@ HCIcrle_encode(compinfo_t *info, int32 length, const uint8 *buf)
 
     rle_info = &(info->cinfo.coder_info.rle_info);
 
-    orig_length = length; /* save this for later */
-    while (length > 0) {  /* encode until we stored all the bytes */
+    orig_length        = length; /* save this for later */
+    rle_info->encoding = TRUE;   /* from here on the state describes bytes still to be written */
+    while (length > 0) {         /* encode until we stored all the bytes */
         switch (rle_info->rle_state) {
             case RLE_INIT:                      /* initial encoding state */
                 rle_info->rle_state  = RLE_MIX; /* shift to MIX state */
@@ -308,6 +310,7 @@ HCIcrle_term(compinfo_t *info)
     }
     rle_info->rle_state   = RLE_INIT;
     rle_info->second_byte = rle_info->last_byte = (unsigned)RLE_NIL;
+    rle_info->encoding    = FALSE;
 
     return SUCCEED;
 } /* end HCIcrle_term() */
@@ -425,7 +428,8 @@ HCPcrle_seek(accrec_t *access_rec, int32 offset, int origin)
     rle_info = &(info->cinfo.coder_info.rle_info);
 
     if (offset < rle_info->offset) { /* need to seek from the beginning */
-        if ((access_rec->access & DFACC_WRITE) && rle_info->rle_state != RLE_INIT)
+        /* a run or mix left half-read by the decoder is not something to write out */
+        if ((access_rec->access & DFACC_WRITE) && rle_info->encoding && rle_info->rle_state != RLE_INIT)
             if (HCIcrle_term(info) == FAIL)
                 HRETURN_ERROR(DFE_CTERM, FAIL);
         if (HCIcrle_init(access_rec) == FAIL)
@@ -580,8 +584,9 @@ HCPcrle_endaccess(accrec_t *access_rec)
     info     = (compinfo_t *)access_rec->special_info;
     rle_info = &(info->cinfo.coder_info.rle_info);
 
-    /* flush out RLE buffer */
-    if ((access_rec->access & DFACC_WRITE) && rle_info->rle_state != RLE_INIT)
+    /* flush out RLE buffer (only what the encoder has buffered: after a partial read the
+       same fields describe a run or mix the decoder has not used up) */
+    if ((access_rec->access & DFACC_WRITE) && rle_info->encoding && rle_info->rle_state != RLE_INIT)
         if (HCIcrle_term(info) == FAIL)
             HRETURN_ERROR(DFE_CTERM, FAIL);
 
